@@ -463,7 +463,72 @@ def run_random_case(case):
     return w.result()
 
 
-SCOPES = {'start': run_start_case, 'single': run_single_case, 'depth2': run_history_case,
+# --------------------------------------------------------------------------
+# read accessors interleaved with in-place operations, all on the *same* live object: an accessor may leave
+# hidden state behind (a converted layout, a cache) that a later operation has to keep coherent
+# --------------------------------------------------------------------------
+
+def _double(v, i, md):
+    return v * 2
+
+
+PRE_ACCESS = {
+    'data-sample': lambda t, v: t.data(v.samp[0], axis='sample'),
+    'data-observation': lambda t, v: t.data(v.obs[0], axis='observation'),
+    'iter-both': lambda t, v: (list(t.iter(axis='sample')), list(t.iter(axis='observation'))),
+    'value-and-nnz': lambda t, v: (t.get_value_by_ids(v.obs[0], v.samp[0]), t.nnz),
+    'iter-obs-then-sample-data': lambda t, v: (list(t.iter_data(axis='observation')), t.data(v.samp[-1], axis='sample')),
+}
+LIVE_OPS = {
+    'transform-sample': lambda t, v: t.transform(_double, axis='sample', inplace=True),
+    'transform-observation': lambda t, v: t.transform(_double, axis='observation', inplace=True),
+    'norm-sample': lambda t, v: t.norm(axis='sample', inplace=True),
+    'pa': lambda t, v: t.pa(inplace=True),
+    'filter-sample': lambda t, v: t.filter(v.samp[:1], axis='sample', inplace=True),
+    'filter-observation': lambda t, v: t.filter(v.obs[-1:], axis='observation', inplace=True),
+    'update_ids': lambda t, v: t.update_ids({x: x + '_r' for x in v.samp}, axis='sample', inplace=True),
+    'add_metadata': lambda t, v: t.add_metadata({v.obs[0]: {'k': 'v'}}, axis='observation'),
+}
+
+
+def run_live_case(case):
+    t = rt.table_from_case(case)
+    wcls = 'live-object:' + rt.state_class(case)
+    v0 = rt.view(t)
+    try:
+        PRE_ACCESS[case['pre']](t, v0)
+        LIVE_OPS[case['op']](t, v0)
+    except Exception as e:
+        return {'fails': [rt.fail('live/operation-returns', wcls, 'returns', ou.describe_exc(e))]}
+    fails = []
+    bad = rt.inv(t)
+    if bad:
+        return {'fails': [rt.fail('live/Inv', wcls, [], bad)]}
+    v = rt.view(t)               # raw fields: what the table now holds
+    if not ou.finite(v):
+        return {'fails': [], 'nontrivial': False}
+    for name, fn in ACCESSORS:   # every accessor on the live object (no clone, no memo)
+        try:
+            r = fn(t, v)
+        except Exception as e:
+            r = ('%s raised' % name, 'a value', ou.describe_exc(e))
+        if r:
+            fails.append(rt.fail('live/accessor/' + name, wcls, r[1], {'query': r[0], 'observed': r[2]}))
+            break
+    return {'fails': fails}
+
+
+def live_cases(tier):
+    mats = [np.array([[1., 0., 2.], [0., 3., 0.]]), np.array([[0., 2.], [1., 1.], [4., 0.]]), np.array([[5., 1.], [2., 0.]])]
+    for dm in mats:
+        for lay in rt.LAYOUTS:
+            for z in ('nz', 'z1'):
+                for pre in sorted(PRE_ACCESS):
+                    for op in sorted(LIVE_OPS):
+                        yield {'A': dm.tolist(), 'layout': lay, 'zeros': z, 'pre': pre, 'op': op}
+
+
+SCOPES = {'live-object': run_live_case, 'start': run_start_case, 'single': run_single_case, 'depth2': run_history_case,
           'depth3': run_history_case, 'random': run_random_case}
 
 
@@ -592,6 +657,9 @@ def run(rep):
                          'tables x layouts x stored zeros (none/all) x metadata (none / text+taxonomy); revisited '
                          '(raw state, remaining depth) pairs are not re-expanded',
                          history_cases(rep.tier, 3, 'reduced'), run_history_case, chunk=1, exhaustive=True)
+        rt.run_scope(rep, 'live-object', 'read accessors, then one in-place operation, then every accessor again on the same '
+                     'object: 3 matrices x layouts x stored zeros x 5 accessor groups x 8 in-place operations',
+                     live_cases(rep.tier), run_live_case, exhaustive=True)
         rt.run_scope(rep, 'random', 'seeded random histories of length 8 over the full alphabet (VERIF_SEED=%d), '
                      'start states: 2x3/3x2/3x3/stress x layouts x stored zeros x ID alphabets x metadata kinds'
                      % rep.seed, random_cases(rep.tier, rep.seed), run_random_case, chunk=8, exhaustive=False)
